@@ -75,7 +75,7 @@ def histories(rng, tier):
             ln += ' or=1'
         h += [ln, 'fitsraw f=out', 'read r=res f=out', 'info res', 'state res', 'vals res', 'valid res']
         out.append(h)
-    return out
+    return [gen.file_variants(rng, h) for h in out]
 
 
 def nontrivial(h):
